@@ -125,6 +125,48 @@ fn medium_part(tier: Tier) -> Part<'static, LockStep> {
     }
 }
 
+static SYS_CORE: LockStep = LockStep { property: "C06", probes: false, seed: None };
+
+/// the core of scrolling over a small alphabet, deeper: regions set and reset, the cursor
+/// inside / above / below them, both screens
+fn alpha_core(cfg: &Cfg) -> Vec<Op> {
+    let rows = cfg.rows as u32;
+    vec![
+        c(Lf),
+        c(Ri),
+        c(Su(None)),
+        c(Sd(None)),
+        c(Il(None)),
+        c(Dl(None)),
+        c(Decstbm(Some(1), Some(rows - 1))),
+        c(Decstbm(Some(2), Some(rows))),
+        c(Decstbm(None, None)),
+        c(Cup(None, None)),
+        c(Cup(Some(99), Some(1))),
+        c(Cud(None)),
+        t("a"),
+        Op::text(&"w".repeat(cfg.cols + 1)),
+        c(DecSet(vec![1047])),
+        c(DecRst(vec![1047])),
+    ]
+}
+
+fn core_part(tier: Tier) -> Part<'static, LockStep> {
+    Part {
+        name: "scroll-core-deep",
+        sys: &SYS_CORE,
+        cfgs: match tier {
+            Tier::Quick => cfgs(&[(2, 3)], &[None]),
+            Tier::Thorough => cfgs(&[(2, 3), (2, 4), (2, 3)], &[None, Some(0)]),
+        },
+        alphabet: &alpha_core,
+        depth: tier.pick(7, 9),
+        seconds: tier.pick(20.0, 1800.0),
+        validated: true,
+        nontrivial: Some("lockstep_transitions"),
+    }
+}
+
 static SYS_SWEEP: LockStep = LockStep { property: "C06", probes: false, seed: Some(&super::sweep::fill) };
 
 fn alpha_sweep(cfg: &Cfg) -> Vec<Op> {
@@ -142,6 +184,7 @@ pub fn run(ctx: &Ctx) -> Report {
     let p = parts!(ctx.tier, &SYS);
     run_part(ctx, &mut rep, &p);
     run_part(ctx, &mut rep, &medium_part(ctx.tier));
+    run_part(ctx, &mut rep, &core_part(ctx.tier));
     run_part(ctx, &mut rep, &super::sweep::sweep_part("scroll-large-screen-parameter-sweep", &SYS_SWEEP, &alpha_sweep, ctx.tier));
     run_part(ctx, &mut rep, &super::sweep::wide_part("scroll-realistic-screen-parameter-sweep", &SYS_SWEEP, &alpha_wide, ctx.tier));
     rep.rule = "lock-step BFS of (real Vt, reference terminal) from a screen whose rows carry distinct content: LF/IND/NEL/RI, SU/SD/IL/DL x counts {default,1,2,h-1,h,h+1,65535}, valid and invalid DECSTBM pairs, wrap-causing text, with cursor placement on every row, coloured pen, alternate screen, resizes; after every transition all rows of lines() (screen and scrollback, cells) and the margins are compared".into();
@@ -151,6 +194,9 @@ pub fn run(ctx: &Ctx) -> Report {
 
 pub fn replay(ctx: &Ctx, v: &Value) -> bool {
     let tier = if v["tier"] == "thorough" { Tier::Thorough } else { Tier::Quick };
+    if v["part"] == "scroll-core-deep" {
+        return replay_part(ctx, &core_part(tier), v);
+    }
     if v["part"] == "scroll-lockstep-medium-screen" {
         return replay_part(ctx, &medium_part(tier), v);
     }
